@@ -7,6 +7,7 @@
   agreement with the Python code is checked by harness/props/c12.py.
 -/
 import HotXL.Lemmas.Logic
+import HotXL.Lemmas.Routes
 
 namespace HotXL.Props.C12
 open HotXL HotXL.Ops HotXL.Fn HotXL.Fn.Logic HotXL.Fn.Info HotXL.Lemmas.Logic
@@ -382,5 +383,19 @@ example : truncNum (.flt (-7/2)) = -3 ∧ truncNum (.flt (7/2)) = 3 ∧ truncNum
     ISEVEN [.num (.flt (-7/2))] = .ok (.bool false) ∧ ISODD [.num (.flt (-7/2))] = .ok (.num (.int 1)) ∧
     ISEVEN [.num (.flt (29/10))] = .ok (.bool true) ∧ ISODD [.num (.int (-3))] = .ok (.num (.int 1)) ∧
     ISEVEN [.str ['2']] = .ok (.err .value) := by c12_eval
+
+/-! ### IF as a route (DESIGN.md 1.7): `IF(TRUE,x,0)` hands the value of `x` on -/
+
+/-- In a formula, on a parser whose host redefined neither `IF` nor `TRUE`, `IF(TRUE,x,0)` evaluates
+    to what `x` evaluates to — for every expression `x` with a known value (an error value included). -/
+theorem if_true_hands_on {env : Eval.Env} (hc : env.custom "IF".toList = none) (hT : env.vars "TRUE".toList = none)
+    {x : Syntax.Expr} {v : Value} (hx : ErrorFlow.outcome env x = .ok v) (hno : Eval.isNoOpinion v = false) :
+    ErrorFlow.outcome env (.call "IF".toList .flat [.var ["TRUE".toList], x, .num (.int ['0'])] []) = .ok v :=
+  Routes.if_route hc hT hx hno
+
+/-- non-vacuity: `IF(TRUE,"ab",0)` -/
+example : ErrorFlow.outcome Eval.Env.empty
+    (.call "IF".toList .flat [.var ["TRUE".toList], .str "ab".toList, .num (.int ['0'])] []) = .ok (.str "ab".toList) :=
+  if_true_hands_on rfl rfl rfl rfl
 
 end HotXL.Props.C12
